@@ -56,6 +56,10 @@ func WalkFiles(ctx context.Context, path string, watchPattern *regexp.Regexp, ou
 		if info.IsDir() && skipdir.ShouldSkip(absPath) {
 			return filepath.SkipDir
 		}
+		if info.IsDir() {
+			// Only files are generated from or removed, whatever a directory is called.
+			return nil
+		}
 		if !watchPattern.MatchString(absPath) {
 			return nil
 		}
